@@ -10,6 +10,7 @@ import (
 	"fmt"
 	"os"
 	"strings"
+	"time"
 )
 
 var (
@@ -110,5 +111,10 @@ func safeHandle(line string) (res string) {
 		}
 	}()
 	toks := strings.Split(line, " ")
+	if toks[0] == "settle" {
+		// give goroutines left behind by the previous case time to finish (or to panic)
+		time.Sleep(40 * time.Millisecond)
+		return "settled"
+	}
 	return handle(toks)
 }
